@@ -434,6 +434,37 @@ impl SymbolTable {
     }
 }
 
+/// Verification hooks (feature `oq3_verif`, off by default): wrappers and read-only
+/// views of private items, so that operation histories can be driven through the API
+/// and the final state can be inspected.
+#[cfg(feature = "oq3_verif")]
+impl SymbolTable {
+    /// Public wrapper of the crate-private `enter_scope`.
+    pub fn verif_enter_scope(&mut self, scope_type: ScopeType) {
+        self.enter_scope(scope_type)
+    }
+
+    /// Number of currently open scopes (1 = only the global scope).
+    pub fn verif_scope_depth(&self) -> usize {
+        self.number_of_scopes()
+    }
+
+    /// All symbols ever created, indexed by `SymbolId`.
+    pub fn verif_symbols(&self) -> &[Symbol] {
+        &self.all_symbols
+    }
+
+    /// The `SymbolId` with index `n` (ids are indices into `verif_symbols`).
+    pub fn verif_symbol_id(n: usize) -> SymbolId {
+        SymbolId(n)
+    }
+
+    /// The index wrapped by `id`.
+    pub fn verif_symbol_index(id: &SymbolId) -> usize {
+        id.0
+    }
+}
+
 impl Default for SymbolTable {
     fn default() -> Self {
         Self::new()
